@@ -21,8 +21,11 @@ ENGINE_MODULES = {"C05": "sim.c05", "C06": "sim.c06", "C12": "sim.c12"}
 BLOCK = 25
 MAX_DIGESTS = 4_000_000
 KNOWN_FILE = os.path.join(env.VERIF_DIR, "known_findings.json")
-REPLAY_DIR = os.path.join(env.VERIF_DIR, "replays")
-EVIDENCE_DIR = os.path.join(env.VERIF_DIR, "evidence")
+# VERIF_OUT_DIR redirects what a run writes (used by the sensitivity self-test
+# so that runs against mutated scratch copies never touch the real evidence)
+_OUT = os.environ.get("VERIF_OUT_DIR") or env.VERIF_DIR
+REPLAY_DIR = os.path.join(_OUT, "replays")
+EVIDENCE_DIR = os.path.join(_OUT, "evidence")
 
 
 def engine_for(prop):
